@@ -82,3 +82,43 @@ fn verif_enum_shwap_ids() {
     }
     println!("ENUM-OK cases={cases}");
 }
+
+// Bounded stand-in for the parts of C14 outside the Kani harnesses (serde form) plus a re-check of the rest on boundary values.
+#[test]
+fn verif_enum_namespace_forms() {
+    let mut cases = 0u64;
+    let mut samples: Vec<[u8; 29]> = Vec::new();
+    // version 0 with ids around the prefix rule, version 255 with the 0xff prefix, and neighbours that must be rejected
+    for last in [0u8, 1, 2, 3, 4, 0x7f, 0xfe, 0xff] { for first in [0u8, 1, 0xff] {
+        let mut b = [0u8; 29]; b[19] = first; b[28] = last; samples.push(b);
+        let mut c = [0xffu8; 29]; c[28] = last; samples.push(c);
+        let mut d = [0u8; 29]; d[18] = first; d[28] = last; samples.push(d);          // byte 18 belongs to the zero prefix
+        let mut e = [0xffu8; 29]; e[27] = first; e[28] = last; samples.push(e);       // a hole in the 0xff prefix
+        let mut f = [0u8; 29]; f[0] = 1; f[28] = last; samples.push(f);                // unknown version
+    }}
+    let mut valid: Vec<Namespace> = Vec::new();
+    for raw in &samples {
+        cases += 1;
+        let ok = (raw[0] == 0 && raw[1..19].iter().all(|x| *x == 0)) || (raw[0] == 0xff && raw[1..28].iter().all(|x| *x == 0xff));
+        match Namespace::from_raw(raw) {
+            Ok(ns) => {
+                if !ok { w(format!("Namespace::from_raw accepted {raw:?}")) }
+                if ns.as_bytes() != &raw[..] { w("Namespace byte form differs from its raw input".into()) }
+                let json = serde_json::to_string(&ns).unwrap();
+                match serde_json::from_str::<Namespace>(&json) { Ok(back) => if back != ns { w(format!("Namespace {raw:?} -> {json} -> {:?}", back.as_bytes())) }, Err(e) => w(format!("Namespace json {json} does not parse: {e}")) }
+                if raw[0] == 0 { match Namespace::new_v0(&raw[19..]) { Ok(b2) => if b2 != ns { w("new_v0 shorthand differs".into()) }, Err(e) => w(format!("new_v0 rejected a valid id: {e}")) } }
+                valid.push(ns);
+            }
+            Err(_) => if ok { w(format!("Namespace::from_raw rejected {raw:?}")) },
+        }
+        if Namespace::from_raw(&raw[..28]).is_ok() { w("28-byte namespace accepted".into()) }
+    }
+    for a in &valid { for b in &valid {
+        cases += 1;
+        if a.cmp(b) != a.as_bytes().cmp(b.as_bytes()) { w(format!("ordering of {:?} and {:?} is not the byte order", a.as_bytes(), b.as_bytes())) }
+    }
+        let reserved = *a <= Namespace::MAX_PRIMARY_RESERVED || *a >= Namespace::MIN_SECONDARY_RESERVED;
+        if a.is_reserved() != reserved { w(format!("is_reserved({:?}) = {}", a.as_bytes(), a.is_reserved())) }
+    }
+    println!("ENUM-OK cases={cases}");
+}
